@@ -579,7 +579,7 @@ package io
 //@   havoc
 //@   requires enc != nil
 //@   stable enc.simple
-//@   ensures [class_numbering_restarts] result == enc && enc.last == 0
+//@   ensures [class_numbering_restarts] result == enc && enc.last == 0 && enc.simple == old(enc.simple)
 //@   ensures [reference_numbering_restarts_in_reference_mode] !enc.simple ==> enc.refer.last == 0
 
 //@ func (*Encoder).Simple
